@@ -1000,7 +1000,7 @@ Proof. split; [constructor|split; [constructor|intros v H; discriminate]]. Qed.
 
 Lemma pm_set_wf m v b : pm_wf m -> pm_wf (pm_set m v b).
 Proof.
-  intros (Ht & Hf & Hd). unfold pm_set. destruct b; cbn [pm_true pm_false].
+  intros (Ht & Hf & Hd). unfold pm_set, pm_wf. destruct b; cbn [pm_true pm_false].
   - split; [apply vs_insert_wf, Ht|]. split; [apply vs_remove_wf, Hf|].
     intros w. rewrite vs_contains_insert, vs_contains_remove.
     destruct (N.eqb_spec w v) as [->|Hne]; cbn [orb negb andb]; [intros _; reflexivity|apply Hd].
@@ -1011,7 +1011,7 @@ Qed.
 
 Lemma pm_unset_wf m v : pm_wf m -> pm_wf (pm_unset m v).
 Proof.
-  intros (Ht & Hf & Hd). unfold pm_unset. cbn [pm_true pm_false]. split; [|split].
+  intros (Ht & Hf & Hd). unfold pm_unset, pm_wf. cbn [pm_true pm_false]. split; [|split].
   - apply vs_remove_wf, Ht.
   - apply vs_remove_wf, Hf.
   - intros w. rewrite !vs_contains_remove. destruct (w =? v); cbn [negb andb]; auto.
@@ -1058,4 +1058,759 @@ Proof.
       destruct (vs_contains (pm_true o) v) eqn:Eto.
       * rewrite (Hdo eq_refl). reflexivity.
       * destruct (vs_contains (pm_false o) v); [congruence|reflexivity].
+Qed.
+
+(* from_assignments / from_total_model / from_litvec *)
+Definition asg_at (l : list (option bool)) (k : nat) (b : bool) : bool :=
+  match nth_error l k with Some (Some b') => Bool.eqb b b' | _ => false end.
+Definition side (b : bool) (m : pmodel) : varset := if b then pm_true m else pm_false m.
+
+Lemma aux_side b l : forall i acc v,
+  vs_contains (side b (pm_from_assignments_aux l i acc)) v =
+  vs_contains (side b acc) v || ((i <=? v) && asg_at l (N.to_nat (v - i)) b).
+Proof.
+  induction l as [|a t IH]; intros i acc v; cbn [pm_from_assignments_aux].
+  - unfold asg_at. destruct (N.to_nat (v - i)); cbn [nth_error]; rewrite andb_false_r, orb_false_r; reflexivity.
+  - rewrite IH.
+    assert (Hs : vs_contains (side b match a with
+                  | Some true => {| pm_true := vs_insert i (pm_true acc); pm_false := pm_false acc |}
+                  | Some false => {| pm_true := pm_true acc; pm_false := vs_insert i (pm_false acc) |}
+                  | None => acc end) v
+                 = vs_contains (side b acc) v
+                   || ((v =? i) && match a with Some b' => Bool.eqb b b' | None => false end)).
+    { destruct a as [[|]|], b; cbn [side pm_true pm_false Bool.eqb];
+        rewrite ?vs_contains_insert, ?andb_false_r, ?andb_true_r, ?orb_false_r;
+        try reflexivity; apply orb_comm. }
+    rewrite Hs, <- orb_assoc. f_equal.
+    destruct (N.ltb_spec v i) as [Hlt|Hge].
+    + destruct (N.eqb_spec v i); [lia|]. destruct (N.leb_spec i v); [lia|].
+      destruct (N.leb_spec (i + 1) v); [lia|]. reflexivity.
+    + destruct (N.eqb_spec v i) as [E|Hne].
+      * subst v. rewrite N.sub_diag. destruct (N.leb_spec (i + 1) i); [lia|].
+        destruct (N.leb_spec i i); [|lia]. unfold asg_at; cbn [N.to_nat nth_error andb orb].
+        rewrite orb_false_r. reflexivity.
+      * destruct (N.leb_spec i v); [|lia]. destruct (N.leb_spec (i + 1) v); [|lia].
+        replace (N.to_nat (v - i)) with (S (N.to_nat (v - (i + 1)))) by lia.
+        reflexivity.
+Qed.
+
+Theorem pm_from_assignments_get l v :
+  pm_get (pm_from_assignments l) v =
+  match nth_error l (N.to_nat v) with Some (Some b) => Some b | _ => None end.
+Proof.
+  unfold pm_get, pm_from_assignments.
+  change (pm_true ?m) with (side true m). change (pm_false ?m) with (side false m).
+  rewrite !aux_side. cbn [side pm_new pm_true pm_false vs_contains existsb orb].
+  rewrite N.sub_0_r. destruct (N.leb_spec 0 v); [|lia]. cbn [andb]. unfold asg_at.
+  destruct (nth_error l (N.to_nat v)) as [[[|]|]|]; reflexivity.
+Qed.
+
+Corollary pm_from_total_model_get l v :
+  pm_get (pm_from_total_model l) v = nth_error l (N.to_nat v).
+Proof.
+  unfold pm_from_total_model. rewrite pm_from_assignments_get, nth_error_map.
+  destruct (nth_error l (N.to_nat v)); reflexivity.
+Qed.
+
+Lemma aux_sorted b l : forall i acc,
+  vs_wf (side b acc) -> vs_wf (side b (pm_from_assignments_aux l i acc)).
+Proof.
+  induction l as [|a t IH]; intros i acc H; cbn [pm_from_assignments_aux]; [exact H|].
+  apply IH. destruct a as [[|]|], b; cbn [side pm_true pm_false] in *;
+    try exact H; apply vs_insert_wf, H.
+Qed.
+
+Theorem pm_from_assignments_wf l : pm_wf (pm_from_assignments l).
+Proof.
+  unfold pm_wf, pm_from_assignments. split; [|split].
+  - apply (aux_sorted true). constructor.
+  - apply (aux_sorted false). constructor.
+  - intros v. change (pm_true ?m) with (side true m). change (pm_false ?m) with (side false m).
+    rewrite !aux_side. cbn [side pm_new pm_true pm_false vs_contains existsb orb].
+    unfold asg_at. destruct (nth_error l (N.to_nat (v - 0))) as [[[|]|]|];
+      rewrite ?andb_false_r; cbn [Bool.eqb]; auto; discriminate.
+Qed.
+
+(* from_litvec: the last literal on a variable wins; a label >= num_vars panics *)
+Definition last_asg (lits : list lit) (v : N) (init : option bool) : option bool :=
+  fold_left (fun acc l => if fst l =? v then Some (snd l) else acc) lits init.
+
+Lemma litvec_fill_spec lits : forall init r,
+  litvec_fill lits init = Some r ->
+  length r = length init /\
+  (forall l, In l lits -> (N.to_nat (fst l) < length init)%nat) /\
+  (forall v, (N.to_nat v < length init)%nat ->
+             nth (N.to_nat v) r None = last_asg lits v (nth (N.to_nat v) init None)).
+Proof.
+  induction lits as [|l t IH]; intros init r H; cbn [litvec_fill] in H.
+  - inversion H; subst. split; [reflexivity|]. split; [intros l []|]. reflexivity.
+  - destruct (Nat.ltb_spec (N.to_nat (fst l)) (length init)) as [Hlt|Hge]; [|discriminate].
+    destruct (IH _ _ H) as (H1 & H2 & H3). rewrite length_set_nth in *.
+    split; [exact H1|]. split.
+    + intros l' [<-|Hl']; [exact Hlt|apply H2, Hl'].
+    + intros v Hv. rewrite (H3 v Hv). unfold last_asg. cbn [fold_left]. f_equal.
+      destruct (N.eqb_spec (fst l) v) as [E|Hne].
+      * subst v. apply nth_set_nth_eq, Hlt.
+      * apply nth_set_nth_neq. intros E. apply Hne. apply N2Nat.inj, E.
+Qed.
+
+Lemma litvec_fill_none lits : forall init,
+  (exists l, In l lits /\ (length init <= N.to_nat (fst l))%nat) -> litvec_fill lits init = None.
+Proof.
+  induction lits as [|l t IH]; intros init [l' [Hin Hl']]; [destruct Hin|].
+  cbn [litvec_fill]. destruct (Nat.ltb_spec (N.to_nat (fst l)) (length init)) as [Hlt|Hge]; [|reflexivity].
+  apply IH. rewrite length_set_nth. destruct Hin as [->|Hin]; [lia|]. exists l'; auto.
+Qed.
+
+Lemma litvec_fill_some lits : forall init,
+  (forall l, In l lits -> (N.to_nat (fst l) < length init)%nat) -> exists r, litvec_fill lits init = Some r.
+Proof.
+  induction lits as [|l t IH]; intros init H; cbn [litvec_fill]; [eexists; reflexivity|].
+  destruct (Nat.ltb_spec (N.to_nat (fst l)) (length init)) as [Hlt|Hge].
+  - apply IH. intros l' Hl'. rewrite length_set_nth. apply H. right; exact Hl'.
+  - specialize (H l (or_introl eq_refl)). lia.
+Qed.
+
+Lemma last_asg_none lits v : (forall l, In l lits -> fst l <> v) -> last_asg lits v None = None.
+Proof.
+  unfold last_asg. induction lits as [|l t IH]; intros H; [reflexivity|]. cbn [fold_left].
+  destruct (N.eqb_spec (fst l) v) as [E|_]; [exfalso; apply (H l (or_introl eq_refl) E)|].
+  apply IH. intros l' Hl'. apply H. right; exact Hl'.
+Qed.
+
+Theorem pm_from_litvec_spec lits n :
+  ((forall l, In l lits -> fst l < n) ->
+     exists m, pm_from_litvec lits n = Some m /\ pm_wf m /\
+               forall v, pm_get m v = last_asg lits v None) /\
+  ((exists l, In l lits /\ n <= fst l) -> pm_from_litvec lits n = None).
+Proof.
+  unfold pm_from_litvec. split.
+  - intros Hr.
+    destruct (litvec_fill_some lits (repeat None (N.to_nat n))) as [r Hfill].
+    { intros l Hl. rewrite repeat_length. specialize (Hr l Hl). lia. }
+    rewrite Hfill. eexists. split; [reflexivity|]. split; [apply pm_from_assignments_wf|].
+    intros v. rewrite pm_from_assignments_get.
+    destruct (litvec_fill_spec _ _ _ Hfill) as (H1 & _ & H3). rewrite repeat_length in *.
+    destruct (Nat.ltb_spec (N.to_nat v) (N.to_nat n)) as [Hlt|Hge].
+    + specialize (H3 v Hlt). rewrite nth_repeat_lt in H3.
+      destruct (Nat.ltb_spec (N.to_nat v) (N.to_nat n)); [|lia].
+      rewrite <- H3. destruct (nth_error r (N.to_nat v)) as [o|] eqn:E.
+      * rewrite (nth_error_nth _ _ None E). destruct o; reflexivity.
+      * apply nth_error_None in E. lia.
+    + rewrite last_asg_none.
+      * destruct (nth_error r (N.to_nat v)) as [o|] eqn:E; [|reflexivity].
+        assert (nth_error r (N.to_nat v) <> None) as Hn by congruence.
+        apply nth_error_Some in Hn. lia.
+      * intros l Hl E. specialize (Hr l Hl). subst. lia.
+  - intros [l [Hl Hn]]. rewrite litvec_fill_none; [reflexivity|].
+    exists l. split; [exact Hl|]. rewrite repeat_length. lia.
+Qed.
+
+(* ------------------------------------------------------------------------------------ *)
+(* The prime stream *)
+Definition Nprime (n : N) : Prop := prime (Z.of_N n).
+
+Lemma is_prime_sound n : is_prime n = true -> Nprime n.
+Proof.
+  unfold is_prime, Nprime. rewrite andb_true_iff, forallb_forall. intros [H2 Hall].
+  apply N.leb_le in H2. apply prime_alt. split; [lia|].
+  intros d [Hd1 Hd2] Hdiv.
+  specialize (Hall (Z.to_nat d)). rewrite in_seq in Hall.
+  assert (Hd : N.of_nat (Z.to_nat d) = Z.to_N d) by lia.
+  rewrite Hd in Hall. specialize (Hall ltac:(lia)).
+  apply negb_true_iff, N.eqb_neq in Hall. apply Hall.
+  apply N2Z.inj. rewrite N2Z.inj_mod. rewrite Z2N.id by lia.
+  apply Z.mod_divide; [lia|exact Hdiv].
+Qed.
+
+Lemma take_primes_spec fuel : forall k cand ps,
+  take_primes k cand fuel = Some ps ->
+  length ps = k /\ Forall (fun p => is_prime p = true) ps /\ Forall (fun p => cand <= p) ps /\
+  StronglySorted N.lt ps.
+Proof.
+  induction fuel as [|f IH]; intros k cand ps H; destruct k as [|k']; cbn [take_primes] in H;
+    try (inversion H; subst; repeat split; constructor); try discriminate.
+  destruct (is_prime cand) eqn:Ep.
+  - destruct (take_primes k' (cand + 1) f) as [r|] eqn:Er; [|discriminate].
+    inversion H; subst. destruct (IH _ _ _ Er) as (H1 & H2 & H3 & H4).
+    split; [cbn [length]; lia|]. split; [constructor; assumption|]. split.
+    + constructor; [lia|]. eapply Forall_impl; [|exact H3]. intros a Ha; cbn beta in *; lia.
+    + constructor; [exact H4|]. eapply Forall_impl; [|exact H3]. intros a Ha; cbn beta in *; lia.
+  - destruct (IH _ _ _ H) as (H1 & H2 & H3 & H4).
+    split; [exact H1|]. split; [exact H2|]. split; [|exact H4].
+    eapply Forall_impl; [|exact H3]. intros a Ha; cbn beta in *; lia.
+Qed.
+
+Lemma StronglySorted_lt_NoDup l : StronglySorted N.lt l -> NoDup l.
+Proof.
+  induction 1 as [|a l Hs IH Hf]; constructor; [|exact IH].
+  intros Hin. rewrite Forall_forall in Hf. specialize (Hf a Hin). lia.
+Qed.
+
+(* products *)
+Definition prodN (l : list N) : N := fold_right N.mul 1 l.
+Definition prodZ (l : list Z) : Z := fold_right Z.mul 1%Z l.
+
+Lemma prodN_app a b : prodN (a ++ b) = prodN a * prodN b.
+Proof.
+  induction a as [|x a IH]; cbn [app prodN fold_right].
+  - rewrite N.mul_1_l; reflexivity.
+  - fold (prodN (a ++ b)). fold (prodN a). rewrite IH. lia.
+Qed.
+
+Lemma prodN_Z l : Z.of_N (prodN l) = prodZ (map Z.of_N l).
+Proof.
+  induction l as [|x l IH]; [reflexivity|].
+  cbn [prodN prodZ fold_right map]. fold (prodN l). fold (prodZ (map Z.of_N l)).
+  rewrite N2Z.inj_mul, IH. reflexivity.
+Qed.
+
+Lemma prodN_perm a b : Permutation a b -> prodN a = prodN b.
+Proof.
+  induction 1 as [|x a b Hp IH|x y a|a b c H1 IH1 H2 IH2]; cbn [prodN fold_right] in *.
+  - reflexivity.
+  - fold (prodN a). fold (prodN b). rewrite IH. reflexivity.
+  - fold (prodN a). lia.
+  - congruence.
+Qed.
+
+Lemma prodN_pos l : Forall (fun p => 0 < p) l -> 0 < prodN l.
+Proof.
+  induction 1 as [|x l Hx Hl IH]; cbn [prodN fold_right]; [lia|]. fold (prodN l). nia.
+Qed.
+
+(* a prime dividing a product of primes is one of them *)
+Lemma prime_divides_prodZ p l :
+  prime p -> Forall prime l -> (p | prodZ l)%Z -> In p l.
+Proof.
+  intros Hp Hl. induction Hl as [|q l Hq Hl IH]; cbn [prodZ fold_right]; intros Hd.
+  - exfalso. apply Z.divide_1_r_nonneg in Hd; [|destruct Hp; lia]. destruct Hp; lia.
+  - fold (prodZ l) in Hd. destruct (prime_mult p Hp _ _ Hd) as [H|H].
+    + left. symmetry. apply prime_div_prime; assumption.
+    + right. apply IH, H.
+Qed.
+
+(* unique factorisation, in the form needed: two sub-products of a list of distinct primes
+   are equal only if they select the same factors *)
+Lemma uf_filter {A} (w : A -> N) (L : list A) (f1 f2 : A -> bool) :
+  NoDup (map w L) -> (forall x, In x L -> Nprime (w x)) ->
+  prodN (map w (filter f1 L)) = prodN (map w (filter f2 L)) ->
+  forall x, In x L -> f1 x = f2 x.
+Proof.
+  induction L as [|a L IH]; intros Hnd Hpr He x Hx; [destruct Hx|].
+  cbn [map] in Hnd. inversion Hnd as [|? ? Hnin Hnd']; subst.
+  assert (Hpr' : forall y, In y L -> Nprime (w y)) by (intros y Hy; apply Hpr; right; exact Hy).
+  assert (Hpa : Nprime (w a)) by (apply Hpr; left; reflexivity).
+  assert (Hpos : w a <> 0) by (unfold Nprime in Hpa; destruct Hpa; lia).
+  assert (Hcontra : forall g P, w a * P = prodN (map w (filter g L)) -> False).
+  { intros g P HP. apply Hnin.
+    assert (Hin : In (Z.of_N (w a)) (map Z.of_N (map w (filter g L)))).
+    { apply prime_divides_prodZ.
+      - exact Hpa.
+      - apply Forall_forall. intros z Hz. apply in_map_iff in Hz. destruct Hz as [n [<- Hn]].
+        apply in_map_iff in Hn. destruct Hn as [y [<- Hy]]. apply filter_In in Hy. apply Hpr', Hy.
+      - rewrite <- prodN_Z, <- HP, N2Z.inj_mul. apply Z.divide_factor_l. }
+    apply in_map_iff in Hin. destruct Hin as [n [Hn Hin]]. apply N2Z.inj in Hn. subst n.
+    apply in_map_iff in Hin. destruct Hin as [y [Hy Hyin]]. apply filter_In in Hyin.
+    rewrite <- Hy. apply in_map, Hyin. }
+  cbn [filter] in He.
+  destruct (f1 a) eqn:E1, (f2 a) eqn:E2; cbn [map prodN fold_right] in He;
+    repeat match type of He with context [fold_right N.mul 1 ?l] => fold (prodN l) in He end.
+  - apply N.mul_cancel_l in He; [|exact Hpos].
+    destruct Hx as [->|Hx]; [congruence|]. apply (IH Hnd' Hpr' He x Hx).
+  - exfalso. apply (Hcontra f2 _ He).
+  - exfalso. symmetry in He. apply (Hcontra f1 _ He).
+  - destruct Hx as [->|Hx]; [congruence|]. apply (IH Hnd' Hpr' He x Hx).
+Qed.
+
+Lemma prodN_filter_le {A} (w : A -> N) (L : list A) (f : A -> bool) :
+  (forall x, In x L -> 0 < w x) -> prodN (map w (filter f L)) <= prodN (map w L).
+Proof.
+  induction L as [|a L IH]; intros Hpos; [cbn; lia|].
+  assert (Hpos' : forall x, In x L -> 0 < w x) by (intros x Hx; apply Hpos; right; exact Hx).
+  specialize (IH Hpos'). pose proof (Hpos a (or_introl eq_refl)) as Ha.
+  cbn [filter]. destruct (f a); cbn [map prodN fold_right];
+    repeat match goal with |- context [fold_right N.mul 1 ?l] => fold (prodN l) end.
+  - nia.
+  - assert (0 < prodN (map w L)).
+    { apply prodN_pos, Forall_forall. intros z Hz. apply in_map_iff in Hz.
+      destruct Hz as [y [<- Hy]]. apply Hpos', Hy. }
+    nia.
+Qed.
+
+(* ------------------------------------------------------------------------------------ *)
+(* CnfHasher *)
+Lemma combine_snd {A B} (c : list B) : forall (qs : list A),
+  (length c <= length qs)%nat -> map snd (combine qs c) = c.
+Proof.
+  induction c as [|l c IHc]; intros qs Hq; [destruct qs; reflexivity|].
+  destruct qs as [|q qs]; [cbn [length] in Hq; lia|]. cbn [combine map snd]. f_equal.
+  apply IHc. cbn [length] in Hq. lia.
+Qed.
+
+Lemma combine_fst {A B} (c : list B) : forall (qs : list A),
+  length qs = length c -> map fst (combine qs c) = qs.
+Proof.
+  induction c as [|l c IHc]; intros qs Hq; destruct qs as [|q qs]; try discriminate; [reflexivity|].
+  cbn [combine map fst]. f_equal. apply IHc. cbn [length] in Hq. lia.
+Qed.
+
+Lemma assign_primes_snd cs : forall ps,
+  (length (concat cs) <= length ps)%nat -> map (map snd) (assign_primes ps cs) = cs.
+Proof.
+  induction cs as [|c t IH]; intros ps Hl; [reflexivity|].
+  cbn [concat] in Hl. rewrite app_length in Hl.
+  cbn [assign_primes map]. f_equal.
+  - apply combine_snd. rewrite firstn_length. lia.
+  - apply IH. rewrite skipn_length. lia.
+Qed.
+
+Lemma assign_primes_fst cs : forall ps,
+  length (concat cs) = length ps -> concat (map (map fst) (assign_primes ps cs)) = ps.
+Proof.
+  induction cs as [|c t IH]; intros ps Hl.
+  - destruct ps; [reflexivity|discriminate].
+  - cbn [concat] in Hl. rewrite app_length in Hl.
+    cbn [assign_primes map concat]. rewrite IH by (rewrite skipn_length; lia).
+    rewrite <- (firstn_skipn (length c) ps) at 3. f_equal.
+    apply combine_fst. rewrite firstn_length. lia.
+Qed.
+
+Definition clause_sat (m : pmodel) (c : clause) : bool := existsb (pm_lit_implied m) c.
+Definition unassigned (m : pmodel) (l : lit) : bool :=
+  match pm_get m (fst l) with None => true | Some _ => false end.
+
+Lemma implied_cases m l :
+  (pm_lit_implied m l = true /\ unassigned m l = false) \/
+  (pm_lit_implied m l = false /\ pm_lit_neg_implied m l = true /\ unassigned m l = false) \/
+  (pm_lit_implied m l = false /\ pm_lit_neg_implied m l = false /\ unassigned m l = true).
+Proof.
+  unfold pm_lit_implied, pm_lit_neg_implied, unassigned.
+  destruct (pm_get m (fst l)) as [b|]; [|right; right; auto].
+  destruct (Bool.eqb b (snd l)); [left; auto|right; left; auto].
+Qed.
+
+(* the factors a clause contributes *)
+Definition sel_clause (m : pmodel) (wc : list (N * lit)) : list N :=
+  if clause_sat m (map snd wc) then []
+  else map fst (filter (fun wl => unassigned m (snd wl)) wc).
+Definition sel (W : list (list (N * lit))) (m : pmodel) (idxs : list nat) : list N :=
+  flat_map (fun i => sel_clause m (nth i W [])) idxs.
+
+Lemma two128_pos : two128 <> 0. Proof. discriminate. Qed.
+
+Lemma clause_hash_spec m wc : forall acc, acc < two128 ->
+  clause_hash m wc acc =
+  if clause_sat m (map snd wc) then None
+  else Some ((acc * prodN (map fst (filter (fun wl => unassigned m (snd wl)) wc))) mod two128).
+Proof.
+  induction wc as [|[w l] t IH]; intros acc Hacc; cbn [clause_hash map clause_sat existsb filter snd].
+  - cbn [prodN fold_right map]. rewrite N.mul_1_r, N.mod_small by exact Hacc. reflexivity.
+  - fold (clause_sat m (map snd t)).
+    destruct (implied_cases m l) as [[H1 H2]|[(H1 & H2 & H3)|(H1 & H2 & H3)]];
+      cbn [snd] in *; rewrite H1; cbn [orb]; [reflexivity| |].
+    + rewrite H2, H3. apply IH, Hacc.
+    + rewrite H2, H3. rewrite IH by (apply N.mod_lt, two128_pos).
+      destruct (clause_sat m (map snd t)); [reflexivity|]. f_equal.
+      cbn [map fst prodN fold_right]. fold (prodN (map fst (filter (fun wl => unassigned m (snd wl)) t))).
+      unfold wrapping_mul. rewrite N.mul_mod_idemp_l by apply two128_pos. f_equal. lia.
+Qed.
+
+Lemma hash_top_spec W m idxs : hash_top W m idxs = prodN (sel W m idxs) mod two128.
+Proof.
+  unfold hash_top.
+  enough (G : forall v, v < two128 ->
+            fold_left (fun v i => match clause_hash m (nth i W []) 1 with
+                                  | None => v | Some cv => wrapping_mul v cv end) idxs v
+            = (v * prodN (sel W m idxs)) mod two128).
+  { rewrite G by reflexivity. rewrite N.mul_1_l. reflexivity. }
+  induction idxs as [|i t IH]; intros v Hv; cbn [fold_left sel flat_map].
+  - cbn [prodN fold_right]. rewrite N.mul_1_r, N.mod_small by exact Hv. reflexivity.
+  - fold (sel W m t). rewrite prodN_app. rewrite clause_hash_spec by reflexivity.
+    unfold sel_clause. destruct (clause_sat m (map snd (nth i W []))).
+    + rewrite IH by exact Hv. cbn [prodN fold_right]. rewrite N.mul_1_l. reflexivity.
+    + rewrite IH by (apply N.mod_lt, two128_pos). rewrite N.mul_1_l.
+      unfold wrapping_mul. rewrite N.mul_mod_idemp_r by apply two128_pos.
+      rewrite N.mul_mod_idemp_l by apply two128_pos. f_equal. lia.
+Qed.
+
+(* HashSet iteration order does not matter *)
+Theorem h_hash_order_irrelevant W m top top' :
+  Permutation top top' -> hash_top W m top = hash_top W m top'.
+Proof.
+  intros Hp. rewrite !hash_top_spec. f_equal. apply prodN_perm.
+  unfold sel. apply Permutation_flat_map, Hp.
+Qed.
+
+(* the residual formula, tagged with the clause index: for every clause still in the top
+   frame and not satisfied by m, its literals not assigned by m *)
+Definition residual_top (C : list clause) (m : pmodel) (top : list nat) : list (nat * clause) :=
+  flat_map (fun i => let c := nth i C [] in
+                     if clause_sat m c then [] else [(i, filter (unassigned m) c)]) top.
+Definition h_clauses (h : hasher) : list clause := map (map snd) (h_wcnf h).
+Definition residual (h : hasher) (m : pmodel) : option (list (nat * clause)) :=
+  match h_state h with
+  | [] => None
+  | top :: _ => Some (residual_top (h_clauses h) m top)
+  end.
+
+(* the hash as a function of the residual alone *)
+Definition factors_of (W : list (list (N * lit))) (res : list (nat * clause)) : list N :=
+  flat_map (fun e => map fst (filter (fun wl => clause_contains (snd e) (snd wl)) (nth (fst e) W []))) res.
+
+Lemma nth_map_snd (W : list (list (N * lit))) i : nth i (map (map snd) W) [] = map snd (nth i W []).
+Proof. apply (map_nth (map snd) W [] i). Qed.
+
+Lemma sel_factors W m top : sel W m top = factors_of W (residual_top (map (map snd) W) m top).
+Proof.
+  unfold sel, factors_of, residual_top.
+  induction top as [|i t IH]; [reflexivity|]. cbn [flat_map]. rewrite IH.
+  rewrite flat_map_app. f_equal. rewrite nth_map_snd. unfold sel_clause.
+  destruct (clause_sat m (map snd (nth i W []))); [reflexivity|].
+  cbn [flat_map fst snd]. rewrite app_nil_r. f_equal. apply filter_ext_in.
+  intros wl Hwl. unfold clause_contains. symmetry.
+  destruct (unassigned m (snd wl)) eqn:Eu.
+  - apply existsb_exists. exists (snd wl). split; [|apply lit_eqb_refl].
+    apply filter_In. split; [apply in_map, Hwl|exact Eu].
+  - apply not_true_is_false. intros H. apply existsb_exists in H. destruct H as [l' [Hl' He]].
+    apply lit_eqb_eq in He. subst l'. apply filter_In in Hl'. destruct Hl' as [_ Hu]. congruence.
+Qed.
+
+Lemma h_hash_residual h m :
+  h_hash h m = match residual h m with
+               | None => None
+               | Some res => Some (repeat (prodN (factors_of (h_wcnf h) res) mod two128) cnf_num_primes)
+               end.
+Proof.
+  unfold h_hash, residual, h_clauses. destruct (h_state h) as [|top rest]; [reflexivity|].
+  rewrite hash_top_spec, sel_factors. reflexivity.
+Qed.
+
+(* "if": two hashers over the same weighted clauses (in particular: the same CnfHasher after
+   two arbitrary push/decide/pop histories) give equal hashes whenever the tagged residuals
+   coincide -- no side condition *)
+Theorem cnfhasher_if_gen h1 h2 m1 m2 :
+  h_wcnf h1 = h_wcnf h2 -> residual h1 m1 = residual h2 m2 -> h_hash h1 m1 = h_hash h2 m2.
+Proof. intros HW Hr. rewrite !h_hash_residual, HW, Hr. reflexivity. Qed.
+
+Lemma h_step_wcnf h o h' : h_step h o = Some h' ->
+  h_wcnf h' = h_wcnf h /\ h_pos h' = h_pos h /\ h_neg h' = h_neg h.
+Proof.
+  destruct o as [|l|]; cbn [h_step]; unfold h_push, h_decide, h_pop.
+  - destruct (h_state h); intros H; inversion H; subst; auto.
+  - destruct (nth_error _ _) as [[|i idxs]|]; try discriminate.
+    + intros H; inversion H; subst; auto.
+    + destruct (h_state h); intros H; inversion H; subst; auto.
+  - intros H; inversion H; subst; auto.
+Qed.
+
+Lemma h_run_wcnf ops : forall h h', h_run h ops = Some h' ->
+  h_wcnf h' = h_wcnf h /\ h_pos h' = h_pos h /\ h_neg h' = h_neg h.
+Proof.
+  induction ops as [|o t IH]; intros h h' H; cbn [h_run] in H.
+  - inversion H; subst; auto.
+  - destruct (h_step h o) as [h1|] eqn:E; [|discriminate].
+    destruct (h_step_wcnf _ _ _ E) as (A & B & C). destruct (IH _ _ H) as (A' & B' & C').
+    repeat split; congruence.
+Qed.
+
+Theorem cnfhasher_if h0 ops1 ops2 h1 h2 m1 m2 :
+  h_run h0 ops1 = Some h1 -> h_run h0 ops2 = Some h2 ->
+  residual h1 m1 = residual h2 m2 -> h_hash h1 m1 = h_hash h2 m2.
+Proof.
+  intros H1 H2. apply cnfhasher_if_gen.
+  destruct (h_run_wcnf _ _ _ H1) as [-> _]. destruct (h_run_wcnf _ _ _ H2) as [-> _]. reflexivity.
+Qed.
+
+(* ---- what the state stack is: the spec keeps, per frame, the literals decided in it or
+   inherited by it; a frame holds the non-unit clauses containing none of them ---- *)
+Definition nonunit (C : list clause) (i : nat) : bool := (1 <? length (nth i C []))%nat.
+Definition live_ok (C : list clause) (d : list lit) (i : nat) : bool :=
+  negb (existsb (clause_contains (nth i C [])) d).
+Definition top_spec (C : list clause) (d : list lit) : list nat :=
+  filter (fun i => nonunit C i && live_ok C d i) (seq 0 (length C)).
+Definition d_step (st : list (list lit)) (o : hop) : list (list lit) :=
+  match o with
+  | HPush => match st with d :: r => d :: d :: r | [] => [] end
+  | HDecide l => match st with d :: r => (l :: d) :: r | [] => [] end
+  | HPop => tl st
+  end.
+Definition d_run (ops : list hop) : list (list lit) := fold_left d_step ops [[]].
+
+Definition hinv (C : list clause) (nv : N) (h : hasher) (st : list (list lit)) : Prop :=
+  h_clauses h = C /\ h_pos h = lit_index C nv true /\ h_neg h = lit_index C nv false /\
+  h_state h = map (top_spec C) st.
+
+Lemma hasher_new_facts cs nv h0 :
+  hasher_new cs nv = Some h0 ->
+  hinv cs nv h0 [[]] /\
+  NoDup (concat (map (map fst) (h_wcnf h0))) /\
+  Forall Nprime (concat (map (map fst) (h_wcnf h0))).
+Proof.
+  unfold hasher_new. destruct (take_primes _ _ _) as [ps|] eqn:E; [|discriminate].
+  intros H; inversion H; subst; clear H.
+  destruct (take_primes_spec _ _ _ _ E) as (Hlen & Hpr & _ & Hss).
+  cbn [h_wcnf]. rewrite assign_primes_fst by (symmetry; exact Hlen). split; [|split].
+  - unfold hinv, h_clauses. cbn [h_wcnf h_pos h_neg h_state].
+    rewrite assign_primes_snd by lia. repeat split.
+    cbn [map]. f_equal. unfold top_spec. apply filter_ext. intros i.
+    unfold nonunit, live_ok. cbn [existsb negb]. rewrite andb_true_r. reflexivity.
+  - apply StronglySorted_lt_NoDup, Hss.
+  - eapply Forall_impl; [|exact Hpr]. intros p Hp. apply is_prime_sound, Hp.
+Qed.
+
+Lemma nth_error_map_seq {A} (f : nat -> A) n : forall a k,
+  nth_error (map f (seq a n)) k = if (k <? n)%nat then Some (f (a + k)%nat) else None.
+Proof.
+  induction n as [|n IH]; intros a k; cbn [seq map].
+  - destruct k; reflexivity.
+  - destruct k as [|k]; cbn [nth_error].
+    + rewrite Nat.add_0_r. reflexivity.
+    + rewrite IH. change (S k <? S n)%nat with (k <? n)%nat.
+      replace (S a + k)%nat with (a + S k)%nat by lia. reflexivity.
+Qed.
+
+Lemma filter_filter {A} (p q : A -> bool) l :
+  filter p (filter q l) = filter (fun x => q x && p x) l.
+Proof.
+  induction l as [|x l IH]; [reflexivity|]. cbn [filter].
+  destruct (q x); cbn [filter andb]; rewrite IH; reflexivity.
+Qed.
+
+Lemma fold_filter_remove idxs : forall top,
+  fold_left (fun s i => filter (fun j => negb (Nat.eqb j i)) s) idxs top =
+  filter (fun j => negb (existsb (Nat.eqb j) idxs)) top.
+Proof.
+  induction idxs as [|i t IH]; intros top; cbn [fold_left existsb].
+  - cbn [negb]. symmetry. clear. induction top as [|x l IH]; [reflexivity|]. cbn [filter]. rewrite IH at 1. reflexivity.
+  - rewrite IH, filter_filter. apply filter_ext. intros j.
+    destruct (Nat.eqb j i); reflexivity.
+Qed.
+
+Lemma mem_filter (P : nat -> bool) L i :
+  In i L -> existsb (Nat.eqb i) (filter P L) = P i.
+Proof.
+  intros Hin. apply eq_true_iff_eq. rewrite existsb_exists. split.
+  - intros [x [Hx He]]. apply Nat.eqb_eq in He. subst x. apply filter_In in Hx. apply Hx.
+  - intros HP. exists i. split; [apply filter_In; auto|apply Nat.eqb_refl].
+Qed.
+
+Lemma filter_nil_all {A} (p : A -> bool) l : filter p l = [] -> forall x, In x l -> p x = false.
+Proof.
+  induction l as [|y l IH]; intros H x Hx; [destruct Hx|]. cbn [filter] in H.
+  destruct (p y) eqn:E; [discriminate|]. destruct Hx as [->|Hx]; [exact E|apply IH; assumption].
+Qed.
+
+Lemma lit_index_nth C nv (l : lit) idxs :
+  nth_error (lit_index C nv (snd l)) (N.to_nat (fst l)) = Some idxs ->
+  idxs = filter (fun i => clause_contains (nth i C []) l) (seq 0 (length C)).
+Proof.
+  unfold lit_index. rewrite nth_error_map_seq.
+  destruct (N.to_nat (fst l) <? N.to_nat nv)%nat; [|discriminate].
+  intros H; inversion H; subst; clear H. cbn [Nat.add]. rewrite N2Nat.id.
+  destruct l; reflexivity.
+Qed.
+
+Lemma hinv_step C nv h st o h' :
+  hinv C nv h st -> h_step h o = Some h' -> hinv C nv h' (d_step st o).
+Proof.
+  intros (HC & Hp & Hn & Hs) Hstep.
+  destruct (h_step_wcnf _ _ _ Hstep) as (EW & EP & EN).
+  unfold hinv, h_clauses in *. rewrite EW, EP, EN.
+  split; [exact HC|]. split; [exact Hp|]. split; [exact Hn|].
+  destruct o as [|l|]; cbn [h_step d_step] in *.
+  - unfold h_push in Hstep. rewrite Hs in Hstep.
+    destruct st as [|d r]; cbn [map] in Hstep; [discriminate|]. inversion Hstep; subst. reflexivity.
+  - unfold h_decide in Hstep.
+    assert (Hidx : forall idxs,
+              nth_error (if snd l then h_pos h else h_neg h) (N.to_nat (fst l)) = Some idxs ->
+              idxs = filter (fun i => clause_contains (nth i C []) l) (seq 0 (length C))).
+    { intros idxs H. apply (lit_index_nth C nv). rewrite <- H.
+      destruct (snd l); [rewrite Hp|rewrite Hn]; reflexivity. }
+    destruct (nth_error _ _) as [idxs|] eqn:En; [|discriminate].
+    specialize (Hidx idxs eq_refl).
+    destruct idxs as [|i0 idxs'].
+    + inversion Hstep; subst h'. rewrite Hs. destruct st as [|d r]; [reflexivity|].
+      cbn [map]. f_equal. unfold top_spec. apply filter_ext_in. intros i Hi.
+      unfold live_ok. cbn [existsb]. symmetry in Hidx.
+      rewrite (filter_nil_all _ _ Hidx i Hi). reflexivity.
+    + rewrite Hs in Hstep. destruct st as [|d r]; cbn [map] in Hstep; [discriminate|].
+      inversion Hstep; subst h'; clear Hstep. cbn [h_state map]. f_equal.
+      change (fold_left (fun s i => filter (fun j => negb (Nat.eqb j i)) s) (i0 :: idxs') (top_spec C d)
+              = top_spec C (l :: d)).
+      rewrite fold_filter_remove, Hidx. unfold top_spec. rewrite filter_filter.
+      apply filter_ext_in. intros i Hi.
+      rewrite (mem_filter _ _ _ Hi). unfold live_ok. cbn [existsb].
+      destruct (nonunit C i), (clause_contains (nth i C []) l), (existsb (clause_contains (nth i C [])) d); reflexivity.
+  - inversion Hstep; subst h'. cbn [h_pop h_state]. rewrite Hs. destruct st; reflexivity.
+Qed.
+
+Lemma hinv_run C nv ops : forall h st h',
+  hinv C nv h st -> h_run h ops = Some h' -> hinv C nv h' (fold_left d_step ops st).
+Proof.
+  induction ops as [|o t IH]; intros h st h' Hi Hr; cbn [h_run fold_left] in *.
+  - inversion Hr; subst. exact Hi.
+  - destruct (h_step h o) as [h1|] eqn:E; [|discriminate].
+    apply (IH h1 _ h' (hinv_step _ _ _ _ _ _ Hi E) Hr).
+Qed.
+
+(* the state of the hasher after any history: the frames of the spec stack *)
+Theorem cnfhasher_state_spec cs nv h0 ops h :
+  hasher_new cs nv = Some h0 -> h_run h0 ops = Some h ->
+  h_clauses h = cs /\ h_state h = map (top_spec cs) (d_run ops).
+Proof.
+  intros H0 Hr. destruct (hasher_new_facts _ _ _ H0) as (Hi & _ & _).
+  destruct (hinv_run _ _ _ _ _ _ Hi Hr) as (A & _ & _ & B). split; assumption.
+Qed.
+
+(* ---- occurrences ---- *)
+Definition occ := (N * (nat * lit))%type.
+Definition occs_of (W : list (list (N * lit))) (idxs : list nat) : list occ :=
+  flat_map (fun i => map (fun wl => (fst wl, (i, snd wl))) (nth i W [])) idxs.
+Definition keep (W : list (list (N * lit))) (q : nat -> bool) (m : pmodel) (o : occ) : bool :=
+  q (fst (snd o)) && negb (clause_sat m (map snd (nth (fst (snd o)) W []))) && unassigned m (snd (snd o)).
+
+Lemma keep_clause W q m i wc :
+  map fst (filter (keep W q m) (map (fun wl => (fst wl, (i, snd wl))) wc)) =
+  if q i then (if clause_sat m (map snd (nth i W [])) then []
+               else map fst (filter (fun wl => unassigned m (snd wl)) wc))
+  else [].
+Proof.
+  induction wc as [|wl wc IHw]; cbn [map filter].
+  - destruct (q i), (clause_sat m _); reflexivity.
+  - unfold keep at 1. cbn [fst snd].
+    destruct (q i); cbn [andb]; [|exact IHw].
+    destruct (clause_sat m (map snd (nth i W []))); cbn [negb andb] in *; [exact IHw|].
+    destruct (unassigned m (snd wl)); cbn [map fst]; rewrite IHw; reflexivity.
+Qed.
+
+Lemma sel_filter_occs W q m idxs :
+  sel W m (filter q idxs) = map fst (filter (keep W q m) (occs_of W idxs)).
+Proof.
+  unfold sel, occs_of. induction idxs as [|i t IH]; [reflexivity|].
+  cbn [filter flat_map]. rewrite filter_app, map_app, keep_clause.
+  unfold sel_clause in *. destruct (q i); cbn [flat_map app]; rewrite IH; reflexivity.
+Qed.
+
+Lemma flat_map_seq_nth {A B} (f : list A -> list B) (W : list (list A)) :
+  flat_map (fun i => f (nth i W [])) (seq 0 (length W)) = flat_map f W.
+Proof.
+  enough (G : forall a, flat_map (fun i => f (nth (i - a) W [])) (seq a (length W)) = flat_map f W).
+  { rewrite <- (G 0%nat). apply flat_map_ext. intros i. rewrite Nat.sub_0_r. reflexivity. }
+  induction W as [|c W IH]; intros a; [reflexivity|].
+  cbn [length seq flat_map]. rewrite Nat.sub_diag. cbn [nth]. f_equal.
+  rewrite <- (IH (S a)). clear. generalize (length W) as n. intros n.
+  assert (G : forall b, (a < b)%nat -> flat_map (fun i => f (nth (i - a) (c :: W) [])) (seq b n)
+                                = flat_map (fun i => f (nth (i - S a) W [])) (seq b n)).
+  { induction n as [|n IHn]; intros b Hb; [reflexivity|]. cbn [seq flat_map].
+    rewrite IHn by lia. f_equal. replace (b - a)%nat with (S (b - S a)) by lia. reflexivity. }
+  apply G. lia.
+Qed.
+
+Lemma occs_fst W : map fst (occs_of W (seq 0 (length W))) = concat (map (map fst) W).
+Proof.
+  unfold occs_of. rewrite <- flat_map_concat_map.
+  rewrite <- (flat_map_seq_nth (map fst) W).
+  generalize (seq 0 (length W)) as idxs. induction idxs as [|i t IH]; [reflexivity|].
+  cbn [flat_map]. rewrite map_app, IH. f_equal. rewrite map_map. reflexivity.
+Qed.
+
+Lemma residual_filter C m q idxs :
+  residual_top C m (filter q idxs) =
+  flat_map (fun i => if q i && negb (clause_sat m (nth i C []))
+                     then [(i, filter (unassigned m) (nth i C []))] else []) idxs.
+Proof.
+  unfold residual_top. induction idxs as [|i t IH]; [reflexivity|].
+  cbn [filter flat_map]. destruct (q i); cbn [flat_map andb]; rewrite IH; [|reflexivity].
+  destruct (clause_sat m (nth i C [])); reflexivity.
+Qed.
+
+Lemma flat_map_ext_in {A B} (f g : A -> list B) l :
+  (forall x, In x l -> f x = g x) -> flat_map f l = flat_map g l.
+Proof.
+  induction l as [|x l IH]; intros H; [reflexivity|]. cbn [flat_map].
+  rewrite (H x (or_introl eq_refl)), IH; [reflexivity|]. intros y Hy. apply H. right; exact Hy.
+Qed.
+
+(* no clause of the top frame is falsified: every residual clause is non-empty *)
+Definition no_falsified (h : hasher) (m : pmodel) : Prop :=
+  forall res i cl, residual h m = Some res -> In (i, cl) res -> cl <> [].
+
+Lemma repeat_inj_num_primes (x y : N) :
+  repeat x cnf_num_primes = repeat y cnf_num_primes -> x = y.
+Proof. unfold cnf_num_primes. cbn [repeat]. intros H; inversion H; reflexivity. Qed.
+
+(* "only if": as long as the product of all literal primes fits in 128 bits, equal hashes
+   of partial models that falsify no clause of their top frame mean equal tagged residuals,
+   whatever the two histories were *)
+Theorem cnfhasher_only_if cs nv h0 ops1 ops2 h1 h2 m1 m2 :
+  hasher_new cs nv = Some h0 ->
+  h_run h0 ops1 = Some h1 -> h_run h0 ops2 = Some h2 ->
+  prodN (concat (map (map fst) (h_wcnf h0))) < two128 ->
+  no_falsified h1 m1 -> no_falsified h2 m2 ->
+  h_hash h1 m1 = h_hash h2 m2 -> residual h1 m1 = residual h2 m2.
+Proof.
+  intros H0 R1 R2 Hfit NF1 NF2 Hh.
+  destruct (hasher_new_facts _ _ _ H0) as (Hi & Hnd & Hpr).
+  destruct (hinv_run _ _ _ _ _ _ Hi R1) as (C1 & _ & _ & S1).
+  destruct (hinv_run _ _ _ _ _ _ Hi R2) as (C2 & _ & _ & S2).
+  destruct (h_run_wcnf _ _ _ R1) as (W1 & _). destruct (h_run_wcnf _ _ _ R2) as (W2 & _).
+  set (W := h_wcnf h0) in *.
+  assert (HC : map (map snd) W = cs) by (destruct Hi as (A & _); exact A).
+  unfold no_falsified, residual, h_hash in *. rewrite C1, C2, S1, S2, W1, W2 in *.
+  destruct (fold_left d_step ops1 [[]]) as [|d1 r1], (fold_left d_step ops2 [[]]) as [|d2 r2];
+    cbn [map] in *; try reflexivity; try discriminate.
+  f_equal. inversion Hh as [Hv]; clear Hh. apply repeat_inj_num_primes in Hv.
+  rewrite !hash_top_spec in Hv.
+  set (q1 := fun i => nonunit cs i && live_ok cs d1 i) in *.
+  set (q2 := fun i => nonunit cs i && live_ok cs d2 i) in *.
+  assert (Hlen : length cs = length W) by (rewrite <- HC, map_length; reflexivity).
+  unfold top_spec in *. fold q1 q2 in NF1, NF2, Hv |- *. rewrite Hlen in *.
+  rewrite !sel_filter_occs in Hv.
+  set (L := occs_of W (seq 0 (length W))) in *.
+  assert (HLfst : map fst L = concat (map (map fst) W)) by apply occs_fst.
+  assert (HLpr : forall o, In o L -> Nprime (fst o)).
+  { intros o Ho. rewrite Forall_forall in Hpr. apply Hpr. rewrite <- HLfst. apply in_map, Ho. }
+  assert (HLpos : forall o, In o L -> 0 < fst o).
+  { intros o Ho. specialize (HLpr o Ho). unfold Nprime in HLpr. destruct HLpr. lia. }
+  assert (Hle : forall f, prodN (map fst (filter f L)) < two128).
+  { intros f. eapply N.le_lt_trans; [apply prodN_filter_le, HLpos|]. rewrite HLfst. exact Hfit. }
+  rewrite !N.mod_small in Hv by apply Hle.
+  assert (Hkeep : forall o, In o L -> keep W q1 m1 o = keep W q2 m2 o).
+  { apply (uf_filter fst L); [rewrite HLfst; exact Hnd|exact HLpr|exact Hv]. }
+  clear Hv Hle.
+  (* per clause index *)
+  assert (Hocc : forall i wl, (i < length W)%nat -> In wl (nth i W []) -> In (fst wl, (i, snd wl)) L).
+  { intros i wl Hi Hwl. unfold L, occs_of. apply in_flat_map. exists i. split; [apply in_seq; lia|].
+    apply in_map_iff. exists wl. split; [reflexivity|exact Hwl]. }
+  assert (Hnth : forall i, nth i cs [] = map snd (nth i W [])) by (intros i; rewrite <- HC; apply nth_map_snd).
+  rewrite !residual_filter. apply flat_map_ext_in. intros i Hi. apply in_seq in Hi.
+  assert (Hk : forall wl, In wl (nth i W []) ->
+            q1 i && negb (clause_sat m1 (nth i cs [])) && unassigned m1 (snd wl)
+            = q2 i && negb (clause_sat m2 (nth i cs [])) && unassigned m2 (snd wl)).
+  { intros wl Hwl. specialize (Hkeep _ (Hocc i wl ltac:(lia) Hwl)).
+    unfold keep in Hkeep. cbn [fst snd] in Hkeep. rewrite <- !Hnth in Hkeep. exact Hkeep. }
+  assert (Hwit : forall (q : nat -> bool) m,
+            (forall res i cl, Some (residual_top cs m (filter q (seq 0 (length W)))) = Some res ->
+                              In (i, cl) res -> cl <> []) ->
+            q i && negb (clause_sat m (nth i cs [])) = true ->
+            exists wl, In wl (nth i W []) /\ unassigned m (snd wl) = true).
+  { intros q m NF HK.
+    assert (Hin : In (i, filter (unassigned m) (nth i cs [])) (residual_top cs m (filter q (seq 0 (length W))))).
+    { rewrite residual_filter. apply in_flat_map. exists i. split; [apply in_seq; lia|].
+      rewrite HK. left; reflexivity. }
+    specialize (NF _ _ _ eq_refl Hin).
+    destruct (filter (unassigned m) (nth i cs [])) as [|l rest] eqn:Ef; [contradiction|].
+    assert (Hl : In l (filter (unassigned m) (nth i cs []))) by (rewrite Ef; left; reflexivity).
+    apply filter_In in Hl. destruct Hl as [Hl Hu]. rewrite Hnth in Hl.
+    apply in_map_iff in Hl. destruct Hl as [wl [<- Hwl]]. exists wl. auto. }
+  destruct (q1 i && negb (clause_sat m1 (nth i cs []))) eqn:K1,
+           (q2 i && negb (clause_sat m2 (nth i cs []))) eqn:K2.
+  - f_equal. f_equal. apply filter_ext_in. intros l Hl. rewrite Hnth in Hl.
+    apply in_map_iff in Hl. destruct Hl as [wl [<- Hwl]]. specialize (Hk wl Hwl). exact Hk.
+  - exfalso. destruct (Hwit q1 m1 NF1 K1) as [wl [Hwl Hu]]. specialize (Hk wl Hwl).
+    rewrite Hu in Hk. cbn in Hk. discriminate.
+  - exfalso. destruct (Hwit q2 m2 NF2 K2) as [wl [Hwl Hu]]. specialize (Hk wl Hwl).
+    rewrite Hu in Hk. cbn in Hk. discriminate.
+  - reflexivity.
 Qed.
